@@ -100,6 +100,13 @@ def dur : TOp → Nat
   | .adv d => d
   | _ => 0
 
+/-- the subsystem an operation is about -/
+def subject : TOp → Option Nat
+  | .register s _ => some s
+  | .unregister s => some s
+  | .report s _ => some s
+  | .adv _ => none
+
 structure TSt where
   core : St := {}
   now : Nat := 0
